@@ -808,6 +808,47 @@ impl TreeSink for MSink {
 
 /// Compare the RcDom tree under `h` with the model tree under `n`.
 /// Checks kinds, names, attributes, text, children order, template contents and parent links.
+/// model copy of what an RcDom holds (parent links as RcDom reports them: a child whose Weak parent
+/// does not name its container gets `parent: None`)
+pub fn dom_from_rcdom(doc: &RcHandle) -> Dom {
+    fn go(d: &mut Dom, h: &RcHandle, me: usize) {
+        let kids: Vec<RcHandle> = h.children.borrow().iter().cloned().collect();
+        for k in kids {
+            let kind = match &k.data {
+                NodeData::Document => Kind::Fragment,
+                NodeData::Doctype { name, public_id, system_id } => Kind::Doctype { name: name.to_string(), public: public_id.to_string(), system: system_id.to_string() },
+                NodeData::Text { contents } => Kind::Text(contents.borrow().to_string()),
+                NodeData::Comment { contents } => Kind::Comment(contents.to_string()),
+                NodeData::ProcessingInstruction { target, contents } => Kind::Pi { target: target.to_string(), data: contents.to_string() },
+                NodeData::Element { name, attrs, mathml_annotation_xml_integration_point, .. } => {
+                    let (ns, prefix, local) = qn(name);
+                    Kind::Element { ns, prefix, local, attrs: attrs.borrow().iter().map(MAttr::from).collect(), template: None, mathml_ip: *mathml_annotation_xml_integration_point, dup: false }
+                },
+            };
+            let c = d.add(kind, true);
+            let p = k.parent.take();
+            let ok = p.as_ref().and_then(|w| w.upgrade()).map(|x| std::rc::Rc::ptr_eq(&x, h)).unwrap_or(false);
+            k.parent.set(p);
+            d.nodes[c].parent = if ok { Some(me) } else { None };
+            d.nodes[me].children.push(c);
+            if let NodeData::Element { template_contents, .. } = &k.data {
+                if let Some(tc) = template_contents.borrow().as_ref() {
+                    let f = d.add(Kind::Fragment, true);
+                    d.nodes[f].host = Some(c);
+                    if let Kind::Element { template, .. } = &mut d.nodes[c].kind {
+                        *template = Some(f);
+                    }
+                    go(d, tc, f);
+                }
+            }
+            go(d, &k, c);
+        }
+    }
+    let mut d = Dom::new();
+    go(&mut d, doc, 0);
+    d
+}
+
 pub fn compare_rcdom(dom: &Dom, n: usize, h: &RcHandle, path: &str) -> Option<String> {
     let node = &dom.nodes[n];
     match (&node.kind, &h.data) {
